@@ -139,6 +139,17 @@ def main() -> int:
                 shutil.copy(src / f, dst / f)
         notes = (src / "notes.md").read_text() if (src / "notes.md").exists() else ""
         meta["needs_to_manifest"] = notes[:1500]
+        meta["verif_head"] = sh(["git", "-C", str(MAIN_VERIF), "rev-parse", "--short", "HEAD"])[1].strip()
+        if (dst / "meta.json").exists():
+            # an earlier evaluation (before the check was strengthened): keep its outcome
+            try:
+                old = json.loads((dst / "meta.json").read_text())
+                hist = old.get("history", [])
+                hist.append({k: old.get(k) for k in ("evaluated_at", "verif_head", "repo_head", "detected", "detected_with_failing_input")}
+                            | {"check_rc": old.get("check", {}).get("rc"), "replay_keys": old.get("check", {}).get("replay_keys")})
+                meta["history"] = hist
+            except Exception:
+                pass
         (dst / "meta.json").write_text(json.dumps(meta, indent=1))
     (src / "eval.json").write_text(json.dumps(meta, indent=1))
     print(f"{name}: applies={meta['applies']} demo clean={meta['demo_clean_rc']} patched={meta.get('demo_patched_rc')} "
